@@ -252,7 +252,7 @@ func (p *cparser) expr(min int) CExpr {
 
 func (p *cparser) unary() CExpr {
 	t := p.cur()
-	if t.kind == "op" && (t.val == "!" || t.val == "-" || t.val == "^") {
+	if t.kind == "op" && (t.val == "!" || t.val == "-" || t.val == "^" || t.val == "*") {
 		p.next()
 		return &CUnary{t.val, p.unary()}
 	}
